@@ -187,7 +187,8 @@ def main(argv=None):
         "feas_timeout_ms": 5000 if thorough else 3000,
         "keep_formulas": True,
         "path_budget_s": int(os.environ.get("PYVC_PATH_BUDGET", "1800" if thorough else "600")),
-        "function_budget_s": int(os.environ.get("PYVC_FUNCTION_BUDGET", "7200" if thorough else "2400")),
+        "function_budget_s": int(os.environ.get("PYVC_FUNCTION_BUDGET", "7200" if thorough else "1500")),
+        "function_max_paths": int(os.environ.get("PYVC_FUNCTION_MAX_PATHS", "400000" if thorough else "60000")),
     }
     targets = [t for t, s in REG.contracts.items() if prop in s.props and not s.assumed]
     if args.only:
